@@ -28,6 +28,14 @@ def units(tier, seed):
     for spec in G.finite_family(tier):
         us.append({"spec": spec, "cap": cap, "max_execs": 40000 if tier == "quick" else 600000,
                    "max_extra_depth": 2 if tier == "quick" else 3})
+    # the language after a refinement was altered the documented way and the grammar extracted again
+    shapes = {s["name"].split(":")[0]: s for s in G.family_shapes()}
+    for base, cls_name, field, new_t in (
+        ("S1", "Lit", "v", ["ann", "int", ["IntRange", 2, 2]]),
+        ("S1", "Var", "n", ["ann", "str", ["VarRange", ["z", "w", "u"]]]),
+        ("S9", "M", "xs", ["ann", ["list", ["ref", "C"]], ["LSB", 2, 2]]),
+    ):
+        us.append({"spec": shapes[base], "cap": cap, "max_execs": 40000, "max_extra_depth": 1, "reannotate": [cls_name, field, new_t]})
     return us
 
 
@@ -90,10 +98,21 @@ def has_empty_list(t) -> bool:
 def run_unit(unit) -> UnitResult:
     r = UnitResult()
     spec = unit["spec"]
-    b = G.build(spec)
+    if unit.get("reannotate"):
+        from checks import producers as P
+
+        ctx = P.open_ctx(dict(unit, kind="tree-create"))
+        b, g, spec = ctx.bundle, ctx.g, ctx.spec
+        if g is None:
+            r.count("extract_failed")
+            b.cleanup()
+            return r
+    else:
+        b = G.build(spec)
+        g = None
     try:
         try:
-            g = b.extract()
+            g = g if g is not None else b.extract()
         except Exception:
             r.count("extract_failed")
             return r
